@@ -61,7 +61,7 @@ func ruleOwnerFields(r *Report) {
 	r.Rule(rule, 10, "for every struct type of the module that has a Close method, every field of a closable type (or slice of closables) is closed in that Close on its non-panicking paths; exceptions are single named fields with a reason")
 	p := r.P
 	for _, fn := range p.ModuleFuncs() {
-		if fn.Name() != "Close" || fn.Signature.Recv() == nil || fn.Parent() != nil || fn.Synthetic != "" {
+		if fnName(fn) != "Close" || fn.Signature.Recv() == nil || fn.Parent() != nil || fn.Synthetic != "" {
 			continue
 		}
 		rt := fn.Signature.Recv().Type()
@@ -97,7 +97,7 @@ func ruleOwnerFields(r *Report) {
 					if cc.IsInvoke() {
 						recv, name = cc.Value, cc.Method.Name()
 					} else if sc := cc.StaticCallee(); sc != nil && sc.Signature.Recv() != nil && len(cc.Args) > 0 {
-						recv, name = cc.Args[0], sc.Name()
+						recv, name = cc.Args[0], fnName(sc)
 					}
 					if name != "Close" || recv == nil {
 						return
@@ -281,7 +281,7 @@ func releasedHow(p *Prog, fn *ssa.Function, v ssa.Value) string {
 				if cc.IsInvoke() {
 					recv, name = cc.Value, cc.Method.Name()
 				} else if sc := cc.StaticCallee(); sc != nil && sc.Signature.Recv() != nil && len(cc.Args) > 0 {
-					recv, name = cc.Args[0], sc.Name()
+					recv, name = cc.Args[0], fnName(sc)
 				}
 				if name == "Close" && recv == x {
 					if _, isDefer := y.(*ssa.Defer); isDefer {
@@ -848,7 +848,7 @@ func ruleOwnerOverwrite(r *Report) {
 	type fieldKey struct{ owner, field string }
 	owners := map[fieldKey]bool{}
 	for _, fn := range p.ModuleFuncs() {
-		if fn.Name() != "Close" || fn.Signature.Recv() == nil || fn.Parent() != nil || fn.Synthetic != "" {
+		if fnName(fn) != "Close" || fn.Signature.Recv() == nil || fn.Parent() != nil || fn.Synthetic != "" {
 			continue
 		}
 		rt := fn.Signature.Recv().Type()
@@ -880,7 +880,7 @@ func ruleOwnerOverwrite(r *Report) {
 			if cc.IsInvoke() {
 				recv, name = cc.Value, cc.Method.Name()
 			} else if sc := cc.StaticCallee(); sc != nil && sc.Signature.Recv() != nil && len(cc.Args) > 0 {
-				recv, name = cc.Args[0], sc.Name()
+				recv, name = cc.Args[0], fnName(sc)
 			}
 			if name != "Close" || recv == nil {
 				return
@@ -920,7 +920,7 @@ func ruleOwnerOverwrite(r *Report) {
 			}
 			// helper: the owner comes in as a parameter; look at the call sites
 			par := paramOrigin(base)
-			if par != nil && len(fn.Params) > 0 && par == fn.Params[0] && fn.Signature.Recv() != nil && fn.Name() == "Open" {
+			if par != nil && len(fn.Params) > 0 && par == fn.Params[0] && fn.Signature.Recv() != nil && fnName(fn) == "Open" {
 				r.OK(rule, key, st.Pos(), "assigned in the owner's own Open")
 				return
 			}
@@ -936,7 +936,7 @@ func ruleOwnerOverwrite(r *Report) {
 			}
 			sites := p.CallSitesOf(fn)
 			if len(sites) == 0 {
-				if fn.Name() == "Open" {
+				if fnName(fn) == "Open" {
 					r.OK(rule, key, st.Pos(), "assigned in the owner's Open (guarded by its open flag)")
 				} else {
 					r.Unk(rule, key, st.Pos(), "no call site of the storing helper found")
@@ -953,7 +953,7 @@ func ruleOwnerOverwrite(r *Report) {
 				if isFresh(a) || closesFieldBefore(cs.Fn, fld, cs) {
 					continue
 				}
-				if cs.Fn.Name() == "Open" || onlyFromOpen(p, cs.Fn, 3) {
+				if fnName(cs.Fn) == "Open" || onlyFromOpen(p, cs.Fn, 3) {
 					continue
 				}
 				bad = append(bad, fmt.Sprintf("%s (%s)", FuncKey(cs.Fn), p.Pos(cs.Pos())))
@@ -1163,7 +1163,7 @@ func ruleNoAcquireAfterClose(r *Report) {
 	})
 	n := 0
 	for _, fn := range p.FuncsOfPkg("sstables") {
-		if fn.Signature.Recv() == nil || fn.Name() == "Close" || typeShort(fn.Signature.Recv().Type()) != "*sstables.SSTableReader" && typeShort(fn.Signature.Recv().Type()) != "sstables.SSTableReader" {
+		if fn.Signature.Recv() == nil || fnName(fn) == "Close" || typeShort(fn.Signature.Recv().Type()) != "*sstables.SSTableReader" && typeShort(fn.Signature.Recv().Type()) != "sstables.SSTableReader" {
 			continue
 		}
 		var regs []Site
@@ -1401,7 +1401,7 @@ func ruleAcquireFailureCloses(r *Report, pkgs []string) {
 						if cc.IsInvoke() {
 							recv, name = cc.Value, cc.Method.Name()
 						} else if sc := cc.StaticCallee(); sc != nil && sc.Signature.Recv() != nil && len(cc.Args) > 0 {
-							recv, name = cc.Args[0], sc.Name()
+							recv, name = cc.Args[0], fnName(sc)
 						}
 						if name == "Close" && holders[recv] {
 							note(t)
@@ -1419,7 +1419,7 @@ func ruleAcquireFailureCloses(r *Report, pkgs []string) {
 										if cc2.IsInvoke() {
 											rv, nm = cc2.Value, cc2.Method.Name()
 										} else if sc := cc2.StaticCallee(); sc != nil && sc.Signature.Recv() != nil && len(cc2.Args) > 0 {
-											rv, nm = cc2.Args[0], sc.Name()
+											rv, nm = cc2.Args[0], fnName(sc)
 										}
 										if nm == "Close" && rv != nil && (holders[rv] || valueDependsOn(rv, func(x ssa.Value) bool { return holders[x] })) {
 											closes = true
@@ -1574,7 +1574,7 @@ func ruleCloseReleasesAll(r *Report) {
 			if cc.IsInvoke() {
 				recv, name = cc.Value, cc.Method.Name()
 			} else if sc := cc.StaticCallee(); sc != nil && sc.Signature.Recv() != nil && len(cc.Args) > 0 {
-				recv, name = cc.Args[0], sc.Name()
+				recv, name = cc.Args[0], fnName(sc)
 			}
 			if name != "Close" || recv == nil {
 				return
@@ -1655,7 +1655,7 @@ func ruleCloseReleasesAll(r *Report) {
 // onlyFromOpen: every call path to fn (up to the given depth) starts in a method called Open — a recovery helper that
 // Open delegates to runs under Open's guard ("already open") like Open itself.
 func onlyFromOpen(p *Prog, fn *ssa.Function, depth int) bool {
-	if fn.Name() == "Open" && fn.Signature.Recv() != nil {
+	if fnName(fn) == "Open" && fn.Signature.Recv() != nil {
 		return true
 	}
 	if depth == 0 {
@@ -1684,7 +1684,7 @@ func ruleOpenFailureReleases(r *Report) {
 	p := r.P
 	n := 0
 	for _, fn := range p.ModuleFuncs() {
-		if fn.Name() != "Open" || fn.Signature.Recv() == nil || fn.Parent() != nil || fn.Synthetic != "" || len(fn.Params) == 0 || errorResultIndex(fn) < 0 {
+		if fnName(fn) != "Open" || fn.Signature.Recv() == nil || fn.Parent() != nil || fn.Synthetic != "" || len(fn.Params) == 0 || errorResultIndex(fn) < 0 {
 			continue
 		}
 		if !hasClose(fn.Signature.Recv().Type()) {
@@ -1748,7 +1748,7 @@ func ruleOpenFailureReleases(r *Report) {
 					if cc.IsInvoke() {
 						rv, nm = cc.Value, cc.Method.Name()
 					} else if sc := cc.StaticCallee(); sc != nil && sc.Signature.Recv() != nil && len(cc.Args) > 0 {
-						rv, nm = cc.Args[0], sc.Name()
+						rv, nm = cc.Args[0], fnName(sc)
 					}
 					if nm != "Close" || rv == nil {
 						return
@@ -1861,7 +1861,7 @@ func ruleOpenFailureReleases(r *Report) {
 						if cc.IsInvoke() {
 							r2, nm = cc.Value, cc.Method.Name()
 						} else if sc := cc.StaticCallee(); sc != nil && sc.Signature.Recv() != nil && len(cc.Args) > 0 {
-							r2, nm = cc.Args[0], sc.Name()
+							r2, nm = cc.Args[0], fnName(sc)
 						}
 						if nm != "Close" || r2 == nil {
 							return
